@@ -299,6 +299,36 @@ def _rest_of_r163(ctx: Ctx, model, shapes) -> None:
         ctx.violation("R16.3", "to_parameters_dataframe:lookup", FIT, tp.node, "to_parameters_dataframe must look parameters up under get_element_name(element, identifiers=external_identifiers)")
     diagram_label_rule(ctx, model, "R16.3")
     label_validation_rule(ctx, model, "R16.3")
+    identifier_forwarding_rule(ctx, model, "R16.3")
+
+
+def identifier_forwarding_rule(ctx: Ctx, model, rid: str) -> None:
+    """Wherever a function of the circuit package holds an identifier map and asks a child for its expression, it hands the
+    map (or the child's entry of it) on: otherwise the child numbers its elements afresh and the same variable name
+    denotes different elements in different parts of one expression."""
+    n = 0
+    for q, fi in sorted(model.funcs.items()):
+        if not fi.module.startswith("pyimpspec.circuit"):
+            continue
+        params = {a.arg for a in fi.node.args.args + fi.node.args.kwonlyargs}
+        has_map = "identifiers" in params or any(isinstance(x, ast.Name) and x.id == "identifiers" and isinstance(x.ctx, ast.Store) for x in walk_ordered(fi.node))
+        if not has_map:
+            continue
+        for c in calls_in(fi.node):
+            if not (isinstance(c.func, ast.Attribute) and c.func.attr == "to_sympy"):
+                continue
+            if norm(c.func.value) in ("self", "super()"):
+                continue
+            n += 1
+            kws = {k.arg: norm(k.value) for k in c.keywords if k.arg}
+            ctx.instance(rid, f"{fi.qual}: {norm(c.func.value)}.to_sympy forwards the identifier map")
+            if kws.get("identifiers") == "identifiers" or kws.get("identifier", "").startswith("identifiers["):
+                ctx.ok()
+            else:
+                ctx.violation(rid, f"{fi.qual}:identifiers-not-forwarded", fi.module, c,
+                              f"{fi.qual} holds the circuit's identifier map but calls {norm(c)[:70]} without it: the nested elements are numbered afresh, so one variable name can denote two elements")
+    if n < 4:
+        raise AnalysisError(f"{rid}: only {n} child to_sympy calls with an identifier map in scope found (floor 4)")
 
 
 DIAGRAMS = (("pyimpspec.circuit.diagrams.circuitikz", "to_circuitikz"), ("pyimpspec.circuit.diagrams.schemdraw", "to_drawing"))
